@@ -40,6 +40,7 @@ var memoPrelude = []string{
 	"g = 0", "G = 10", "h = func(x) {x + 1}",
 	"fpure = func(x) {x * 2}", "flower = func(x) {x + g}", "fupper = func(x) {x + G}", "fcallee = func(x) {h(x)}",
 	`fprint = func(x) {println("in fprint", x); x}`, `ferror = func(x) {error("bad", x)}`, "fimpure = func(x) {x + vcount()}",
+	`fneed = func(x) {if g == 0 {error("no")}; x + g}`, "fcatchlower = func(x) {r = catch(fneed(x)); if r.err {-1} else {r.value}}",
 	"fwraplower = func(x) {flower(x)}", "finv = func(x) {1 / x}", "hset = func(k) {h = func(x) {x + k}}",
 	"mklower = func(v) {func(y) {y + v}}", "mkupper = func(V) {func(y) {y + V}}", "mkfunc = func(c) {func(y) {c(y)}}",
 }
@@ -204,6 +205,8 @@ func checkC04(c *Ctx) {
 		{"x = 1", "g = func() {x}", "f = func() {g()}", "println(f())", "x = 2", "println(f())"},
 		{"h = func(x) {x + 1}", "f = func(x) {h(x)}", "println(f(1))", "set = func() {h = func(x) {x + 2}}", "set()", "println(f(1))"},
 		{"f = func(x) {1 / x}", "println(f(0.0))", "println(f(-0.0))", "println(f(0.0))"},
+		{"cfg = 0", `need = func() {if cfg == 0 {error("no cfg")}; cfg}`, "chk = func() {catch(need()).err}", "println(chk())", "cfg = 1", "println(chk())"},
+		{`need = func() {if info.globals.cfg == nil {error("no cfg")}; 1}`, "chk = func() {catch(need()).err}", "println(chk())", "cfg = 1", "println(chk())"},
 		{"f = func(a) {len(a)}", "println(f([1, 2]))", "println(f([1, 2, 3]))", `println(f({"a": 1}))`},
 		{"f = func(x) {x + vcount()}", "println(f(1))", "println(f(1))"},
 		{`f = func(x) {if x > 1 {error("e")} else {x}}`, "println(catch(f(2)).err)", "println(catch(f(2)).err)"},
